@@ -27,6 +27,9 @@ type BackoffCase struct {
 	DeadQueue   bool `json:"dead_queue"`
 	Events      int  `json:"events"`
 	Parents     int  `json:"parents"` // how many of the events are parents of a split (invisible to ForEach, but committed / routed like the others)
+	// UptimeMin: virtual minutes between the creation of the batcher and this (failing) batch; healthy
+	// batches are sent in between. The retry budget of a batch must not depend on how long the plugin is up.
+	UptimeMin int `json:"uptime_min"`
 }
 
 func genBackoff(t *rapid.T) BackoffCase {
@@ -39,6 +42,7 @@ func genBackoff(t *rapid.T) BackoffCase {
 	}
 	c.Fails = rapid.IntRange(-1, 9).Draw(t, "fails")
 	c.Parents = rapid.IntRange(0, c.Events-1).Draw(t, "parents")
+	c.UptimeMin = rapid.SampledFrom([]int{0, 0, 1, 14, 16, 45}).Draw(t, "uptime_min")
 	return c
 }
 
@@ -89,8 +93,23 @@ func runBackoff(c BackoffCase) *vkit.Outcome {
 			}
 			events = append(events, e)
 		}
-		batch := pipeline.NewPreparedBatch(events)
 		var data pipeline.WorkerData
+		if c.UptimeMin > 0 {
+			// the plugin has been up for a while and has sent healthy batches
+			saved := calls
+			origFails := c.Fails
+			for m := 0; m < c.UptimeMin; m += 7 {
+				time.Sleep(7 * time.Minute)
+				c.Fails = 0
+				hb := pipeline.NewPreparedBatch([]*pipeline.Event{{SeqID: 1000, Size: 1}})
+				rb.Out(&data, hb)
+			}
+			c.Fails = origFails
+			calls = saved[:0]
+			errorCalls = 0
+			start = time.Now()
+		}
+		batch := pipeline.NewPreparedBatch(events)
 		rb.Out(&data, batch)
 		total := time.Since(start)
 
